@@ -847,6 +847,15 @@ impl Prop for Finds {
                     recs.push((88, t, 2));
                     cx.count("stores with a title in letters outside the BMP");
                 }
+                if idx % 40 == 23 {
+                    // a word that begins with 32-70 repeats of one letter, or 20-40 repeats of two (a long typed prefix of it has
+                    // three or four different grams, however long it is)
+                    let alpha = gen::lower_alphabet(lang);
+                    let (a, b) = (alpha[(idx as usize / 40) % alpha.len()], alpha[(idx as usize / 40 + 5) % alpha.len()]);
+                    let run: String = if (idx / 40) % 2 == 0 { std::iter::repeat(a).take(32 + (idx as usize / 80) % 39).collect() } else { std::iter::repeat(s(&[a, b])).take(20 + (idx as usize / 80) % 21).collect() };
+                    recs.push((68, format!("{}{}", run, gen::rand_word(&mut cx.rng, &alpha, 2, 4)), 2));
+                    cx.count("stores with a word that begins with a long run of one or two letters");
+                }
                 if idx % 40 == 17 {
                     // a title of two or three short words that begin with a title-case letter (neither upper nor lower case:
                     // U+01C5, U+01C8, U+01CB, U+01F2, U+1F88) followed by capitals
